@@ -15,6 +15,10 @@
 #include <errno.h>
 #include "qlibc.h"
 #include "vfc.h"
+/* the print helpers (debug()) run on real contents now and then: C11 covers what they read */
+static FILE *DEVNULL; static unsigned long DBGCTR;
+#define DEBUG_NOW() (((++DBGCTR) % 61) == 0 && (DEVNULL || (DEVNULL = fopen("/dev/null", "w"))))
+
 #include "ref_hash.h"
 #ifdef __SANITIZE_ADDRESS__
 #include <sanitizer/asan_interface.h>
@@ -185,6 +189,7 @@ static uint64_t image_norm_hash(void *region) {
 /* ---- observations through a handle -------------------------------------- */
 /* digest of everything observable: size triple, get of every universe key, walk sequence */
 static uint64_t observe(qhasharr_t *t, bool against_model, const char *prop) {
+    if (DEBUG_NOW()) { t->debug(t, DEVNULL); vf_count("debug_prints", 1); }
     uint64_t d = VF_H0;
     int mx = -1, us = -1; int n = t->size(t, &mx, &us);
     d = vf_hash(&n, sizeof n, d); d = vf_hash(&mx, sizeof mx, d); d = vf_hash(&us, sizeof us, d);
@@ -195,7 +200,12 @@ static uint64_t observe(qhasharr_t *t, bool against_model, const char *prop) {
     }
     for (int id = 0; id < NU; id++) {
         size_t sz = 31337; errno = 0;
-        void *v = t->get_by_obj(t, UK[id].k, UK[id].kl, &sz);
+        static unsigned long obsctr; obsctr++;
+        bool kstr = UK[id].k[UK[id].kl - 1] == 0 && strlen((char *)UK[id].k) + 1 == UK[id].kl;
+        void *v;
+        if (kstr && (obsctr + (unsigned long)id) % 3 == 1) v = t->get(t, (char *)UK[id].k, &sz);                         /* the C-string front ends of the same lookup */
+        else if (kstr && (obsctr + (unsigned long)id) % 3 == 2 && MP[id] && MVL[id] && MV[id][MVL[id] - 1] == 0 && strlen((char *)MV[id]) + 1 == MVL[id]) { v = t->getstr(t, (char *)UK[id].k); sz = v ? strlen(v) + 1 : 0; }
+        else v = t->get_by_obj(t, UK[id].k, UK[id].kl, &sz);
         if (against_model) {
             if (MP[id]) { if (!v) { judge(prop, "key-lost", "key %d vanished (errno %d)", id, errno); return 0; }
                           if (sz != MVL[id] || memcmp(v, MV[id], sz)) { judge(prop, "value-changed", "key %d holds a wrong value (size %zu, expected %zu)", id, sz, MVL[id]); free(v); return 0; } }
@@ -288,7 +298,7 @@ static void op_put(int id, size_t vl, int salt, int api) {
     vf_log("put[%d] k%d(len %zu) vlen=%zu slots=%zu free=%ld old=%zu expect=%d", api, id, UK[id].kl, vl, need, freeslots, old, expect);
     errno = 0; bool r;
     if (api == 1) r = T->put(T, (char *)kb, vb, vl);
-    else if (api == 2) r = T->putstr(T, (char *)kb, (char *)vb);
+    else if (api == 2) r = (salt & 1) ? T->putstrf(T, (char *)kb, "%s", (char *)vb) : T->putstr(T, (char *)kb, (char *)vb);
     else r = T->put_by_obj(T, kb, UK[id].kl, vb, vl);
     int e = errno;
     memset(kb, 0xA5, UK[id].kl); memset(vb, 0xA5, vl); hm_free(kb); hm_free(vb);
